@@ -28,7 +28,10 @@ RULE = ("cells = solver family x (problem shape, storage, shift, start vector, p
         "to range(A) (integer left null vector found by rational elimination; A^T b = 0 in floating point), b = 2^-40 x catalogue b "
         "(solution of tiny norm relative to the start), each from the zero, ones and far start, with and without shift, both "
         "operator forms; LM: zero / orthogonal / tiny data of the quadratically perturbed linear problem and zero / tiny data of "
-        "the exponential fit.  Both facets are judged by the same independent dense optimality systems, at a tolerance that is "
+        "the exponential fit.  Operand-MAGNITUDE facet (CGLS, PCGLS): ONE operand of the problem - the preconditioner P, the operator A "
+        "or the data b - multiplied by 2^e, e in {-30, 0 (base product), +30} (exact scaling; P and c P define the same preconditioned "
+        "iteration, so the answer must not depend on c), from the zero and the ones start, with and without shift, both operator forms, "
+        "both ways of applying P^-1.  All these facets are judged by the same independent dense optimality systems, at a tolerance that is "
         "relative to the problem and accounts for the solver's stopping rule being relative to the INITIAL residual / gradient; "
         "every input is a legal float64 ndarray problem, so a raise is a violation.  RESTRICTED-DOMAIN facet (LM): curve fits "
         "r_i(x) = phi(x0 + x1 t_i) - y_i, phi in {log, sqrt, reciprocal (positive branch)}, 9 abscissae in [-1, 1], exact (zero-residual) "
@@ -75,7 +78,9 @@ BOUND = {
              "6x4 x the same 4 regularisers x ones at 2^10 only, LM {expfit, rosenbrock, quadpert} x 2 starts x {sparse+csr, dense}; right-hand-side structure {0, orthogonal to "
              "range(A) (m>n), 2^-40 b}: CGLS 3 shapes x shift{0,.5} x {zero,ones,far}, PCGLS same x P{I, lower bidiagonal} x {explicit "
              "inverse, solve}, FISTA and ISTA 6x4 x 4 regularisers x {zero,ones,far} and 3x5 x {zero,ones}, LM quadpert x {0, orthogonal, "
-             "tiny} and expfit x {0, tiny} x 2 starts x {sparse+csr, dense}; all dense storage, both operator forms; LM restricted domain: "
+             "tiny} and expfit x {0, tiny} x 2 starts x {sparse+csr, dense}; operand magnitude: operand {A, b, P} x 2^{-30,+30} x 3 shapes x "
+             "shift{0,.5} x {zero,ones}: CGLS (A, b), PCGLS (A, b, P) x P{I, lower bidiagonal} x {explicit inverse, solve} (2^30 A with "
+             "shift on the under-determined shape is ill-conditioned and left out); all dense storage, both operator forms; LM restricted domain: "
              "{log, sqrt, reciprocal} x {exact, perturbed data} x 5 out-of-domain conventions x {sparse+csr, dense} x starts (a, a rho), "
              "a in {16, 64}, rho in {0, +-.375, +-.75} (600 runs, maxit 1000, gradtol 1e-9); argument integrity: every solve of every cell; "
              "re-use histories: 3 shapes x dense x start {zero, ones} x (b, parameter) representation {(catalogue float64, python scalars), "
@@ -88,7 +93,7 @@ BOUND = {
                 "(d=2: 25^2, d=3: 13^3), 3 step sizes; start representation adds int32 and integer list, sparse storage, all 4 "
                 "preconditioners, FISTA on all shapes x 5 regularisers x far start, LM Rosenbrock from integer starts, "
                 "all 10 minimize methods with and without gradient; start scale and right-hand-side structure facets: 4 shapes, dense "
-                "and sparse storage, all 4 preconditioners, all three non-zero starts for PCGLS, ISTA all shapes with m>=n x all "
+                "and sparse storage, all 4 preconditioners (operand-magnitude facet likewise), all three non-zero starts for PCGLS, ISTA all shapes with m>=n x all "
                 "regularisers x 3 step sizes at 2^{10,20,30} and the under-determined 3x5 at 2^10 (dense, largest step), FISTA (momentum) "
                 "3 shapes with m>=n at 2^10 and 2^20 (dense, largest step), structure cells for FISTA/ISTA on all 4 shapes x 3 starts; "
                 "LM restricted domain: starts a in {4, 8, 16, 32, 64} x rho in {0, +-.375, +-.75, +-.875} (35 starts), and the quick "
@@ -125,6 +130,11 @@ ASSUMPTIONS = [
     "is promised; the distance to the dense solution is bounded by ||H^-1|| times that; meeting the stopping rule within 400 "
     "iterations is demanded unless s0 is zero to rounding (start already the solution).  The solver's second, inherited stopping "
     "test ||x|| tol >= 1 is outside the bound: every start has ||x0|| < 2e11 < 1/tol",
+    "operand-magnitude cells (CGLS/PCGLS): same oracle as the start-scale cells, evaluated with the SCALED operands (its terms are "
+    "homogeneous: ||P|| ||P^-T s0|| does not change when P is scaled, the other terms scale with A resp. b), so nothing beyond the "
+    "documented relative stopping rule is demanded; every scaled problem keeps cond(A^T A + s I) < 100 and ||x*|| tol < 1, the one "
+    "combination that does not (2^30 A, shift > 0, m < n) is not enumerated; scaling by powers of two only, |e| = 30 (no overflow / "
+    "underflow of any product the recurrences form)",
     "start-scale / structure cells, FISTA/ISTA: the stopping rule (abstol on the step) is absolute, hence the same optimality "
     "systems and tolerances as in the base product; the momentum variant only has an O(||x0-x*||^2/k^2) guarantee, so scales "
     "beyond 2^10 (quick) / 2^20 (thorough) and the under-determined shape are not enumerated for it; runs reaching maxit count only",
@@ -176,6 +186,9 @@ SCALES = [10, 20, 30]
 # right-hand-side / solution STRUCTURE facet: b = 0, b exactly orthogonal to range(A) (m > n), b = 2^-40 x catalogue b
 BKINDS = ["zero", "orth", "tiny"]
 TINY = 2.0 ** -40
+# operand-MAGNITUDE facet (CGLS / PCGLS): ONE operand of the problem - the preconditioner P, the operator A or the data b - multiplied
+# by 2^e (exact); e = 0 is the base product
+OPSCALES = [-30, 30]
 # LM on residuals with a RESTRICTED DOMAIN: r_i(x) = phi(x0 + x1 t_i) - y_i, t = -1, -.75, ..., 1, defined where x0 + x1 t_i > 0
 DOM_FAMS = ["log", "sqrt", "recip"]                   # phi = log, sqrt, 1/. (positive branch)
 DOM_OOB = ["nan", "+inf", "-inf", "nan-all", "inf-all"]   # what the user's residual returns outside the domain
@@ -388,6 +401,23 @@ def _wide_cells(q, shapes, regs, steps, k):
                         for (rk, rp) in regs:
                             out.append({"kind": "fista", "m": m, "n": n, "storage": storage, "start": start, "adaptive": adaptive,
                                         "reg": rk, "regpar": rp, "step": 0.99, "b": bk, "facet": "rhs-structure", "cat": k})
+    # ---- (iii) magnitude of ONE operand: P, A or b times 2^e (the other operands as in the catalogue), zero and non-zero start
+    for (m, n) in shapes:
+        for storage in storages:
+            for shift in (0.0, 0.5):
+                for operand in ("A", "b", "P"):
+                    for e in OPSCALES:
+                        if operand == "A" and m < n and shift > 0 and e > 0:
+                            continue        # cond(2^60 A^T A + s I) ~ 2^60 / s on the null space of A: not a well-conditioned problem
+                        for start in ("zero", "ones"):
+                            if operand != "P":
+                                out.append({"kind": "cgls", "m": m, "n": n, "storage": storage, "shift": shift, "start": start,
+                                            "operand": operand, "opscale": e, "facet": "scale-of-" + operand, "cat": k})
+                            for P in precs:
+                                for pinv in ("explicit", "solve"):
+                                    out.append({"kind": "pcgls", "m": m, "n": n, "storage": storage, "shift": shift, "P": P,
+                                                "pinv": pinv, "start": start, "operand": operand, "opscale": e,
+                                                "facet": "scale-of-" + operand, "cat": k})
     for (prob, datas) in (("quadpert", BKINDS), ("expfit", ("zero", "tiny"))):
         for data in datas:
             for (sparse_flag, jtype) in ((True, "csr"), (False, "dense")):
@@ -463,7 +493,19 @@ def _problem(cell):
     m, n, k = cell["m"], cell["n"], cell["cat"]
     A = refs.full_matrix(m, n, k)
     b = _rhs(A, refs.dyadic_vec(m, k + 1), cell.get("b"))
+    if cell.get("operand") == "A":          # operand-magnitude facet: exact scaling by a power of two
+        A = A * 2.0 ** cell["opscale"]
+    elif cell.get("operand") == "b":
+        b = b * 2.0 ** cell["opscale"]
     return A, b
+
+
+def _cell_P(cell, n, k):
+    """Preconditioner of a cell: catalogue preconditioner, times 2^opscale (exact) in the cells of the operand-magnitude facet."""
+    Pm = _P(cell["P"], n, k)
+    if cell.get("operand") == "P":
+        Pm = (Pm * 2.0 ** cell["opscale"]).tocsc()
+    return Pm
 
 
 def _cell_start(cell, n, k):
@@ -746,7 +788,7 @@ def _eval_cg_wide(cell, res):
     rhs = A.T @ b
     s0 = rhs - H @ x0
     if kind == "pcgls":
-        Pd = np.asarray(_P(cell["P"], n, k).todense(), float)
+        Pd = np.asarray(_cell_P(cell, n, k).todense(), float)
         ns0 = float(np.linalg.norm(np.linalg.solve(Pd.T, s0)))
         amp = float(np.linalg.norm(Pd, 2))        # ||s|| <= ||P^T|| ||P^-T s||
     else:
@@ -757,7 +799,12 @@ def _eval_cg_wide(cell, res):
     fpfloor = 1e3 * eps * (float(sv[0]) * float(np.linalg.norm(x0)) + float(np.linalg.norm(rhs)))
     stopb = 10 * tol * amp * ns0
     already = ns0 <= fpfloor            # the start solves the system to rounding: a relative stopping rule cannot be demanded
-    tag = ("2^%d" % cell["scale"]) if fac == "x0-scale" else "b=%s" % cell["b"]
+    if fac == "x0-scale":
+        tag = "2^%d" % cell["scale"]
+    elif fac == "rhs-structure":
+        tag = "b=%s" % cell["b"]
+    else:
+        tag = "%s*2^%d" % (cell["operand"], cell["opscale"])
     sols, bad, noconv = {}, {}, {}
     old = cuqi.config.MAX_DIM_INV
     try:
@@ -768,7 +815,7 @@ def _eval_cg_wide(cell, res):
             op = Aop if form == "matrix" else _funform(Aop)
             x0c = x0.copy()
             bc = b.copy()
-            Pm = _P(cell["P"], n, k) if kind == "pcgls" else None
+            Pm = _cell_P(cell, n, k) if kind == "pcgls" else None
             guard = _Guard(A=Aop, b=bc, P=Pm)
             res.state("%s:%s:%s" % (form, cell["start"], tag))
             try:
